@@ -30,7 +30,9 @@ mpz_remove (mpz_ptr dest, mpz_srcptr src, mpz_srcptr f)
   mp_bitcnt_t pwr;
   int p;
 
-  if (mpz_cmp_ui (f, 1) <= 0)
+  /* 0 and +-1 have no finite number of occurrences; a negative f is a factor
+     like any other: -72 = (-3)^2 * (-8) */
+  if (mpz_cmpabs_ui (f, 1) <= 0)
     DIVIDE_BY_ZERO;
 
   if (SIZ (src) == 0)
